@@ -37,9 +37,6 @@ theorem at_most_once_routing (s : State) (h : Reachable s) : (s.hub.map (·.1)).
 theorem gauge_counts_routing_entries (s : State) (h : Reachable s) : s.subGauge = s.hub.length :=
   (reachable_struct s h).gauge
 
-theorem reachable_ghost (s : State) (h : Reachable s) : Ghost s :=
-  reachable_invariant Ghost Ghost.init next_ghost s h
-
 theorem generations_nonzero (s : State) (h : Reachable s) (ch : Chan) (e : Entry)
     (he : aget s.channels ch = some e) : e.gen ≠ 0 :=
   (reachable_ghost s h).entGen ch e he
